@@ -287,10 +287,10 @@ theorem initialQueue_valid (d : Doc) (start : Pos) (md : Option Int) :
 
 /-! ## find -/
 
-theorem mem_findAllIn (p : Pos) (key otype : Option Str) (sub : Bool) (i : Nat) (l : List Sec)
+theorem mem_findAllIn (lw : Str → Str) (p : Pos) (key otype : Option Str) (sub : Bool) (i : Nat) (l : List Sec)
     (q : Pos) :
-    q ∈ findAllIn p key otype sub i l ↔
-      ∃ j s, l[j]? = some s ∧ q = p ++ [i + j] ∧ matchesObj (some s) key otype sub = true := by
+    q ∈ findAllIn lw p key otype sub i l ↔
+      ∃ j s, l[j]? = some s ∧ q = p ++ [i + j] ∧ matchesObj lw (some s) key otype sub = true := by
   induction l generalizing i with
   | nil => simp [findAllIn]
   | cons c r ih =>
